@@ -207,7 +207,27 @@ pub fn profile_for(id: &str, rng: &mut Rng) -> Profile {
             p.max_sessions = 2;
             // rows with overflow chains are not generated here: open findings F7 / D6d
             p.read_burst = if rng.chance(12) { rng.range(240, 420) as u32 } else { 0 };
+            if rng.chance(25) {
+                // eviction pressure: uniform ~0.5 KiB rows outgrow a small cache, so dirty (also
+                // uncommitted) pages are written back before commit
+                p.text_cols = true;
+                p.pad_text = 450;
+                p.max_inserts_per_table = 100;
+                p.max_tables = 2;
+                p.max_events = rng.range(50, 90) as u32;
+                p.guards.retain(|g| g != "more_than_18_inserts_per_table");
+                p.guards.push("more_than_100_inserts_per_table".into());
+                p.min_events = 25;
+                p.max_events = rng.range(30, 60) as u32;
+                p.updates = false;
+                p.small_cache = true;
+                p.w_flush = 0;
+                p.w_reopen = 0;
+                p.w_ddl = 2;
+                p.w_auto = 60;
+            }
             p.guards.push("uncheckpointed_create_with_open_txn".into()); // D3
+            p.guards.push("crash_after_stolen_page".into()); // S1 (fault-space guard)
             p.guards.push("checkpoint_with_open_txn".into()); // F4
             if id == "C08" {
                 p.guards.push("crash_after_recovery_truncated_log".into()); // F6 (fault-space guard)
